@@ -1313,7 +1313,11 @@ class DocutilsRenderer(RendererProtocol):
         for key, value in data.items():
             if not isinstance(value, str | int | float | date | datetime):
                 # note YAML can produce values that are not JSON serializable, e.g. dates
-                value = json.dumps(value, default=str)
+                try:
+                    value = json.dumps(value, default=str)
+                except TypeError:
+                    # e.g. a mapping with a date as key
+                    pass
             value = str(value)
             body = nodes.paragraph()
             body.source, body.line = self.document["source"], line
